@@ -51,6 +51,16 @@ def derive_case(dsize):
                 return self.out
         t = L.make_transport(False, L.Script([]))
         t.K, t.H, t.session_id = K, H, sid
+        if ctx.flag("an-earlier-exchange-used-another-hash"):
+            # keys of an earlier exchange were derived with that exchange's hash; this exchange negotiated another method
+            class Old:
+                def __init__(self, data=b""):
+                    pass
+
+                def digest(self):
+                    return b"\xee" * dsize
+            t.kex_engine = type("E0", (), {"hash_algo": Old})()
+            t._compute_key("A", 1)
         t.kex_engine = type("E", (), {"hash_algo": Hash})()
         with ctx.patches(std_patches(PM, PU, builtins=("int",))):
             out = t._compute_key(letter, nbytes)
